@@ -707,19 +707,28 @@ impl World {
         self.wait_for(patient, if patient { 20_000 } else { 60 }, done).await
     }
 
-    /// `patient`: the completion is certain, its absence after `limit_ms` is recorded
+    /// `patient`: the completion is certain, its absence after `limit_ms` is recorded. The budget is
+    /// counted on a clock that a stall of the whole process cannot advance by more than 100 ms per
+    /// iteration (the sandbox VM gets paused: after a pause of more than the limit this loop would give
+    /// up before the runtime has had a turn to fire the implementation's own timers)
     async fn wait_for(&mut self, patient: bool, limit_ms: u64, done: impl Fn(&VerifTcpState, &[Out]) -> bool) {
-        let start = Instant::now();
         // once an answer went missing the run is failing anyway: do not spend 20 s on each further one
+        // (a QUIC attempt that gets no answer ends after 3 probe timeouts, about 3 s)
         let missed = MISSED.load(std::sync::atomic::Ordering::Relaxed);
-        let limit = Duration::from_millis(if patient && missed > 0 { limit_ms.min(2_000) } else { limit_ms });
+        let short = if self.kind == Tk::Quic { 8_000 } else { 2_000 };
+        let limit = Duration::from_millis(if patient && missed > 0 { limit_ms.min(short) } else { limit_ms });
+        let mut spent = Duration::ZERO;
+        let mut last = Instant::now();
         loop {
             self.flush().await;
             let seen = OUTS.with(|o| done(&self.t.state(), &o.borrow()));
             if seen {
                 break;
             }
-            if start.elapsed() > limit {
+            let now = Instant::now();
+            spent += (now - last).min(Duration::from_millis(100));
+            last = now;
+            if spent > limit {
                 if patient {
                     push_out(12, 0);
                     MISSED.fetch_add(1, std::sync::atomic::Ordering::Relaxed);
